@@ -33,6 +33,8 @@ SameClient(x, name, rids) == x.name = name /\ (name = "" \/ x.ids = ToSet(rids))
 LookOK(R, L, G, q) ==
     CASE q.t = "find"  -> \E x \in FindSet(R, L, q.id) : SameClient(x, q.r, q.rids)
       [] q.t = "name"  -> SameClient(ByName(R, q.n), q.r, q.rids)
+      \* the query-log / statistics attribution (q.a has no zone)
+      [] q.t = "loose" -> \E x \in LooseSet(R, L, q.id, q.a) : SameClient(x, q.r, q.rids)
       [] q.t = "range" -> ToSet(q.rng) = NamesOf(R) /\ Len(q.rng) = Cardinality(NamesOf(R))
       [] q.t = "apply" ->
             LET e == Effective(R, L, G, q.id, q.a)
